@@ -9,7 +9,7 @@ Streams
                 exact-rational conv->BN (rsqrt = oracle input); with quantizers bit for bit outside
                 the band where the float rounding of the fold moves a kernel entry across a
                 quantizer breakpoint.
-  data_format   (inside the layer stream; regression of fix 8710a09) both classes x process-wide image
+  data_format   (inside the layer stream; regression of fix 90019a5) both classes x process-wide image
                 data format {channels_last, channels_first} x data_format argument {omitted,
                 channels_last, channels_first}: `layer.data_format` is the requested layout (the
                 process-wide one when omitted) and the layer equals stock conv ->
@@ -502,7 +502,7 @@ def stream_layers(run, tf, qkeras, rng, tier):
         if qk is None and qb is None:
           qk = QUANTS[0]
       cases.append(layer_case(rng, geo, mode, use_bias, scale, center, qk, qb, act, "exact"))
-  # data-format stream (regression of fix 8710a09: QConv2DBatchnorm dropped its data_format argument):
+  # data-format stream (regression of fix 90019a5: QConv2DBatchnorm dropped its data_format argument):
   # both classes x both process-wide formats x {omitted, channels_last, channels_first}; two thirds
   # un-quantized and linear (judged against stock conv -> BatchNormalization in the expected layout),
   # one third quantized (judged against the property's quantized form)
@@ -1871,7 +1871,7 @@ def run(run: core.Run, tier: str):
   import qkeras
   rng = np.random.default_rng(run.seed)
   run.extra["rule"] = (
-      "layer stream (code with fixes d42f1d8, 8710a09): {QConv2DBatchnorm, QDepthwiseConv2DBatchnorm} x {ema,batch}_stats_folding x use_bias x "
+      "layer stream (code with fixes d42f1d8, 90019a5): {QConv2DBatchnorm, QDepthwiseConv2DBatchnorm} x {ema,batch}_stats_folding x use_bias x "
       "scale x center x geometry {valid,same} x {plain, strided, dilated, rectangular, 1x1, depth multiplier} x "
       "{no quantizer, kernel+bias quantized_bits, kernel only, bias only} x {linear, relu}, plus the corner geometries "
       "(batch 1, extents of 1, kernel >= input, stride > kernel, dilation with SAME, channels_first for both classes), the "
